@@ -12,7 +12,6 @@ import (
 	"fmt"
 	"math/rand"
 	"os"
-	"os/exec"
 	"path/filepath"
 	"regexp"
 	"sort"
@@ -189,7 +188,7 @@ func runPointerDriver(c *core.Ctx, drv string, inputs [][]byte, tag string) []pt
 	}
 	w.Flush()
 	f.Close()
-	cmd := exec.Command(drv, "pointer", in, out)
+	cmd := driverCmd(c, drv, "pointer", in, out)
 	if b, err := cmd.CombinedOutput(); err != nil {
 		c.Infra("pointer driver: %v\n%s", err, b)
 	}
